@@ -42,7 +42,8 @@ Definition sg2pg (n : Z) : pystr := s2p (nth (Z.to_nat (n - 1)) sg2pg_table ""%s
 Definition sg_valid (n : Z) : bool := (1 <=? n) && (n <=? 230).
 (* point_group_aliases *)
 Definition pg_aliases : list (string * list string) :=
-  [("121", ["20"]); ("2/m", ["2"]); ("222", ["22"]); ("422", ["42"]); ("432", ["43"]); ("m-3m", ["m3m"])]%string.
+  [("121", ["20"]); ("2/m", ["2"]); ("222", ["22"]); ("422", ["42"]); ("432", ["43"]); ("622", ["62"]);
+   ("m-3m", ["m3m"])]%string.
 (* names of symmetry._groups *)
 Definition pg_names : list string :=
   ["1"; "-1"; "211"; "121"; "112"; "m11"; "1m1"; "11m"; "2/m"; "222"; "mm2"; "mmm"; "4"; "-4"; "4/m";
